@@ -6,8 +6,14 @@ and the (seeded) scheduler decides who continues.  `Av._CACHE_LOCK` is replaced 
 scheduler-aware lock with the same `with` interface, so blocking is visible and the order of
 lock acquisitions is recorded.  No source hook is used.
 
-line: `conc <basis> <q1;q2;...> <acquisition order> <seed:policy:precreate>`
+line: `conc <basis> <q1;q2;...> <events> <seed:policy:precreate>`
   queries: C<n> count, L<n> of_length, U<n> up_to_length, I<perm> membership
+  events : what the scheduler-aware lock and the scheduler observed, in the order it happened:
+           e<t> thread t entered `with LOCK`, <t> thread t acquired the lock, w<t> the shared cache got one
+           level longer while t was running, r<t> thread t released the lock, d<t> thread t's query returned.
+           A query that finds its level in the cache on a lock-free fast path contributes only d<t>; the model
+           (driven by the lock discipline generated from the source) is advanced through the same events, so
+           it is told by the events - not by an assumption about the source - which queries took the lock.
   answer : per-thread results joined by '|', then '#', then the keys of every cache level
 """
 import itertools
@@ -23,22 +29,32 @@ PROP = "C07"
 RULE = ("each case = 2-4 real threads querying one shared Av object (or equal bases constructed inside the threads) under "
         "one seeded deterministic schedule (policies: uniform random, sticky, bounded context switches); non-trivial = at "
         "least two threads need a level that is not yet cached (so their critical sections compete); distinct = distinct "
-        "(basis, queries, acquisition order, schedule seed) lines")
+        "(basis, queries, observed lock/growth/completion events, schedule seed) lines")
 ASSUMPTIONS = [
-    "CPython executes one bytecode-level container operation (list.append, dict read, list item assignment) atomically (GIL)",
+    "CPython executes one bytecode-level container operation (list.append, dict read, list item assignment, len(list), list[i]) "
+    "atomically (GIL); on a lock-free fast path `len(self.cache)` and `self.cache[n]` are two such atomic reads",
     "pre-emption is explored at source-line granularity inside permset.py, not inside C-level calls",
     "the patched scheduler-aware lock has the mutual-exclusion semantics of multiprocessing.Lock",
     "fairness/termination under the OS scheduler is outside the model",
 ]
-PARTIAL = ["termination is proved for schedules that can be cut into >= sum(2n+4) fair rounds (each round contains every thread id; "
+PARTIAL = ["termination is proved for schedules that can be cut into >= sum(2n+4) fair rounds (sum(2n+5) when the source has the lock-free "
+           "fast path: one more step per request for the test; each round contains every thread id; "
            "C07.fair_progress / av_fair_run_correct) and deadlock freedom for every reachable state (C07.deadlock_free); that the real "
            "OS/GIL scheduler and threading.Lock are fair in this sense (every runnable thread is eventually scheduled) is an assumption, not a theorem",
            "one write of _ensure_level is one atomic terminating step of the machine: termination/atomicity of a single list append or "
            "level replacement inside CPython is taken from the sequential theory (C02) and the GIL, not proved here",
-           "answers are compared up to the order of the keys inside a level (List.Perm), as in C02"]
+           "answers are compared up to the order of the keys inside a level (List.Perm), as in C02",
+           "lock-free fast path (Generated.lockFastPath): the driver models its test by the canonical guard level_number < len(self.cache) "
+           "(Model.C07.sourceDisc); the theorems are proved for every guard that implies it (Disc.OK), and further conjuncts of the real "
+           "test (isinstance, 0 <=) are true for the non-negative ints the harness passes",
+           "the replay of the observed events is exact under the plain discipline; under a fast path the lock-free test and `with LOCK` "
+           "are separate pre-emption points which the harness does not observe individually (no source hooks), so for a few queries the "
+           "replayed model reads lock-free where the implementation took the lock or vice versa (coverage.replay_events_in_sync); the "
+           "compared answers do not depend on it (C07.concurrent_correct / driver_replay_correct hold for every schedule)"]
 TRUSTED = ["sys.settrace-based deterministic scheduler (harness/c07.py)", "monkey-patched Av._CACHE_LOCK"]
 
-HANG_S = 15.0
+HANG_S = 30.0
+HANG_TOTAL_S = 600.0
 
 
 def worker_init():
@@ -58,13 +74,16 @@ class SchedLock:
 
     def __enter__(self):
         me = threading.get_ident()
+        self.sch.event("e", me)
         while self.owner is not None:
             self.sch.yield_point(blocked=True)
         self.owner = me
         self.sch.acq.append(self.sch.names[me])
+        self.sch.event("", me)
         return self
 
     def __exit__(self, *a):
+        self.sch.event("r", threading.get_ident())
         self.owner = None
         return False
 
@@ -103,13 +122,34 @@ class Scheduler:
         self.state = {}
         self.names = {}
         self.acq = []
+        self.events = []
+        self.cache_len = None       # callable: current length of the shared level cache (or None)
+        self.seen_len = 1           # a new class starts with level 0 only
         self.last = None
         self.steps = 0
         self.switches = 0
         self.hung = False
 
+    def sample(self, me):
+        """only the running thread mutates shared state, so any growth of the cache since the last look
+        is the work of `me`; a lock-free reader never causes growth and is never an event of its own"""
+        if self.cache_len is None:
+            return
+        try:
+            n = self.cache_len()
+        except Exception:  # noqa: B902 - the class may not exist yet
+            return
+        if n is not None and n > self.seen_len:
+            self.events.extend(["w%d" % self.names[me]] * (n - self.seen_len))
+            self.seen_len = n
+
+    def event(self, kind, me):
+        self.sample(me)
+        self.events.append("%s%d" % (kind, self.names[me]))
+
     def yield_point(self, blocked=False):
         me = threading.get_ident()
+        self.sample(me)
         with self.cv:
             self.state[me] = "blocked" if blocked else "ready"
             self.current = None
@@ -122,6 +162,7 @@ class Scheduler:
         """suspend the calling thread (e.g. holding a partially consumed iterator) until every other
         thread is done or cannot run; returns the names of the threads that were still blocked then"""
         me = threading.get_ident()
+        self.sample(me)
         with self.cv:
             self.state[me] = "parked"
             self.current = None
@@ -170,6 +211,7 @@ class Scheduler:
                 errors[name] = ferr(e)
             finally:
                 sys.settrace(None)
+                self.event("d", me)
                 with self.cv:
                     self.state[me] = "done"
                     self.current = None
@@ -183,9 +225,13 @@ class Scheduler:
             while len(self.state) < len(ths):
                 self.cv.wait(1.0)
             while True:
+                t_disp = time.time()
                 while self.current is not None:
                     self.cv.wait(1.0)
-                    if time.time() - t0 > HANG_S:
+                    # a hang is a dispatched thread that does not reach its next yield point (it waits on a real
+                    # lock nobody will release): the clock restarts with every dispatch, so a long run on a loaded
+                    # machine is not a hang; HANG_TOTAL_S bounds the whole run
+                    if time.time() - t_disp > HANG_S or time.time() - t0 > HANG_TOTAL_S:
                         self.hung = True
                         return results, errors
                 live = [t for t, s in self.state.items() if s != "done"]
@@ -223,8 +269,12 @@ def make_class(basis_str):
     return Av.from_iterable([c02.to_patt(b) for b in basis])
 
 
+def fevents(ev):
+    return ",".join(ev) if ev else "_"
+
+
 def run_conc(basis_str, queries, seed, policy, precreate):
-    """returns (per-thread outputs, acquisition order, final keys, hung, steps)"""
+    """returns (per-thread outputs, observed events, final keys, hung, steps)"""
     Av.clear_cache()
     rng = random.Random("%s|%s|%s|%s" % (basis_str, queries, seed, policy))
     sch = Scheduler(rng, policy)
@@ -243,6 +293,14 @@ def run_conc(basis_str, queries, seed, policy, precreate):
             setattr(PS, modname, _LockShim(real, sch))
     try:
         shared = make_class(basis_str) if precreate else None
+
+        def cache_len():
+            av0 = shared
+            if av0 is None:
+                cc = PS.Av._CLASS_CACHE
+                av0 = next(iter(cc.values())) if cc else None
+            return len(av0.cache) if av0 is not None else None
+        sch.cache_len = cache_len
 
         def job(kind, arg):
             def f():
@@ -279,7 +337,7 @@ def run_conc(basis_str, queries, seed, policy, precreate):
                 outs.append("HANG")
         av = shared if shared is not None else Av._CLASS_CACHE.get(next(iter(Av._CLASS_CACHE)), None) if Av._CLASS_CACHE else None
         keys = "/".join(fseqs(sorted(tuple(p) for p in lv)) for lv in av.cache) if av is not None else ""
-        return outs, list(sch.acq), keys, sch.hung, sch.steps
+        return outs, list(sch.events), keys, sch.hung, sch.steps
     finally:
         for name, val in saved_attrs.items():
             setattr(PS.Av, name, val)
@@ -308,7 +366,7 @@ def eval_case(spec):
     basis_str, queries, seed, policy, precreate = spec
     outs, acq, keys, hung, steps = run_conc(basis_str, queries, seed, policy, precreate)
     meta = "%s:%s:%d" % (seed, policy, 1 if precreate else 0)
-    line = "conc %s %s %s %s" % (basis_str, queries, fseq(acq), meta)
+    line = "conc %s %s %s %s" % (basis_str, queries, fevents(acq), meta)
     keypart = keys if precreate else "*"
     io = "|".join(outs) + "#" + keypart
     oo = "|".join(oracle_outs(basis_str, queries)) + "#" + keypart
@@ -320,12 +378,15 @@ def eval_case(spec):
 
 
 def impl(op, a):
-    """replay: re-run the same seeded schedule; the acquisition order must reproduce"""
+    """replay: re-run the same seeded schedule; the observed events must reproduce (a line in the older
+    format carries the bare acquisition order)"""
     basis_str, queries, acq, meta = a
     seed, policy, pre = meta.split(":")
     outs, acq2, keys, hung, steps = run_conc(basis_str, queries, int(seed), policy, pre == "1")
-    if fseq(acq2) != acq:
-        return "NONDETERMINISTIC-SCHEDULE acq=%s" % fseq(acq2)
+    if not any(c in acq for c in "ewrd"):
+        acq2 = [e for e in acq2 if e.isdigit()]
+    if fevents(acq2) != acq:
+        return "NONDETERMINISTIC-SCHEDULE events=%s" % fevents(acq2)
     return "|".join(outs) + "#" + (keys if pre == "1" else "*")
 
 
@@ -390,4 +451,23 @@ def run(ctx):
     ctx.extra["policies"] = {p: sum(1 for s in specs if s[3] == p) for p in ("random", "sticky", "switch")}
     ctx.extra["acquisition_orders_distinct"] = len({c[0].split(" ")[3] + c[0].split(" ")[2] for c in cases})
     ctx.extra["hangs"] = len(hangs)
+    # queries that returned without ever taking the lock (0 under the plain discipline; the lock-free fast
+    # path of double-checked locking shows up here)
+    nolock = 0
+    for c in cases:
+        toks = c[0].split(" ")[3].split(",")
+        nolock += sum(1 for t in toks if t.startswith("d") and t[1:] not in toks)
+    ctx.extra["queries_without_lock"] = nolock
+    # diagnostic: in how many observed events the replayed model was in the corresponding state
+    # (exact under the plain discipline; under a lock-free fast path the test `n < len(cache)` and
+    # `with LOCK` are separate pre-emption points, so a few events may find the model one query ahead)
+    try:
+        import core
+        if core.driver_available() and getattr(ctx, "model_ok", True):
+            res = core.run_driver(["concsync" + c[0][4:] for c in cases if c[0].startswith("conc ")])
+            ok = sum(int(r.split("/")[0]) for r in res if "/" in r)
+            tot = sum(int(r.split("/")[1]) for r in res if "/" in r)
+            ctx.extra["replay_events_in_sync"] = "%d/%d" % (ok, tot)
+    except Exception as e:  # noqa: B902 - diagnostic only
+        ctx.extra["replay_events_in_sync"] = "n/a (%s)" % type(e).__name__
     ctx.exhaustive = False
